@@ -175,6 +175,7 @@ func (ps *pathState) dumpUnknown() {
 	n := atomic.AddInt32(&dumpSeq, 1)
 	os.MkdirAll(dir, 0o755)
 	os.WriteFile(fmt.Sprintf("%s/unknown_%d.smt2", dir, n), []byte(ps.slv.Transcript.String()), 0o644)
+	os.WriteFile(fmt.Sprintf("%s/unknown_%d.stack", dir, n), []byte(ps.i.stackString()), 0o644)
 }
 
 // checkModel is like check but on Sat also returns a model for all inputs.
